@@ -205,6 +205,7 @@ func (e *env) grpcQuery(sid, tid, q string, params []*schema.NamedParam) (rows, 
 type pgSess struct {
 	c    *pgconn.PgConn
 	prep map[string]string // sql text -> prepared statement name
+	nps  int               // names are never reused on a connection
 }
 
 func (e *env) pgConnect() (*pgSess, error) {
@@ -291,7 +292,8 @@ func (p *pgSess) extended(q string, vals [][]byte) pgRes {
 func (p *pgSess) prepared(q string, vals [][]byte) pgRes {
 	name, ok := p.prep[q]
 	if !ok {
-		name = fmt.Sprintf("ps%d", len(p.prep))
+		p.nps++
+		name = fmt.Sprintf("ps%d", p.nps)
 		if _, err := p.c.Prepare(bg(), name, q, nil); err != nil {
 			et, broken := pgErrText(err)
 			return pgRes{Err: "prepare:" + et, Broken: broken, Status: p.c.TxStatus()}
